@@ -18,6 +18,32 @@ CHECKS = {
         technique="TLA+ state machine (SMList.tla) model-checked with TLC; transition/path replay into the "
                   "library + trace validation of recorded executions (SMListTrace.tla)",
         ref="6 (C10), 3.2, 3.3"),
+    "C08": dict(
+        text="TLC enumerates every cell of the documented operator table (Dispatch.tla: all ordered pairs of the 16 "
+             "public classes plus Int/Float/conforming and non-conforming arrays x 10 operators x single/multi-valued "
+             "operands = 12.8k cells), checks the table's own sanity (2D x 3D, rotation x rigid, matrix x quaternion/twist "
+             "are all must-raise, results name real classes, scalar products commute) and exports the documented outcome; "
+             "every cell is executed against the library after Python's reflection protocol and compared (class of the "
+             "result, never None / identity / foreign elements, must-raise). Operator calls made by the repository's "
+             "own tests are recorded at the special-method level and judged by TLC (DispatchTrace). Exhaustive over the "
+             "finite table, which is exactly the quantifier of C08.",
+        note="Trusted: the transcription of the docstring tables into Dispatch!Doc (cells the documentation does not "
+             "decide are 'unspec': executed, not judged); values of results are judged by C02/C04/C09/C20, not here.",
+        technique="TLA+ dispatch-table machine (Dispatch.tla) enumerated by TLC; per-cell replay into the library; "
+                  "trace validation of the test-suite's operator calls (DispatchTrace.tla)",
+        ref="6 (C08), Appendix B"),
+    "C09": dict(
+        text="TLC enumerates (Dispatch.tla, Broadcast part) every (class, operator, m, n) with m, n in 0..5 for the 8 "
+             "list-capable classes and operators * / + - == != ** and pose*point, every per-value method named by the "
+             "statement and interp over a vector of s, and exports the result length and the Pick map (which element of "
+             "each operand feeds result i) or ValueError; LenRule is checked by TLC. Every case is executed on operands "
+             "built from pairwise distinguishable members and each result element compared with the library's own "
+             "single-valued operation on the picked elements. Exhaustive within the bounds the property states.",
+        note="Oracle for element values is the single-valued operation itself (statement's wording); its correctness is "
+             "C02/C04. Result containers (object, list, array stacked on first or last axis) are all accepted. Methods "
+             "not named by the statement (Twist accessors, angvec, ...) are explored and counted, not judged.",
+        technique="TLA+ broadcast/dispatch machine enumerated by TLC; per-case replay into the library",
+        ref="6 (C09)"),
 }
 
 ENGINE = {"name": "tlc-replay", "path": "/verif/check",
